@@ -363,6 +363,109 @@ fn c18quad(seed: u64) -> i32 {
     }
 }
 
+/// "Any number of threads": more than 64 threads use one shared value during the process's life, and two of them,
+/// 64 apart in order of first use, query it at the same time (what a per-thread slot table of fixed size, a thread
+/// counter taken modulo something, or a thread-id keyed cache would have to survive).
+fn c18many(seed: u64) -> i32 {
+    use crate::ds::{Path, Ty};
+    use std::sync::atomic::{AtomicBool, AtomicUsize, Ordering};
+    let mut rng = stream(run_seed(seed, "C18-miri-many", 0), "workload");
+    let n = 60 + rng.usize_below(20);
+    let syms: Vec<u128> = (0..n).map(|i| ((i * 7 + rng.usize_below(9)) % 23) as u128).collect();
+    let aliases = [crate::ds::Alias::HQWT256, crate::ds::Alias::QWT256Pfs, crate::ds::Alias::HWT, crate::ds::Alias::WT, crate::ds::Alias::HQWT512Pfs];
+    let alias = aliases[(seed % aliases.len() as u64) as usize];
+    let spec = Spec::Tree {
+        alias,
+        ty: [Ty::U8, Ty::U32, Ty::U64][(seed % 3) as usize],
+        path: Path::FromVec,
+        seq: Seq::Explicit(syms.iter().map(|&s| Sym(s)).collect()),
+        orders: (rng.next_u64(), rng.next_u64()),
+    };
+    let x = match crate::core::catch(|| spec.build()) {
+        Ok(x) => x,
+        Err(_) => return 0,
+    };
+    let mut qs = gen_queries(&spec, &mut rng, 8);
+    // valid queries of every kind (a cache or memo is only reached by arguments that pass validation)
+    for _ in 0..8 {
+        qs.push(Q::Get(rng.usize_below(n)));
+    }
+    for _ in 0..4 {
+        let c = syms[rng.usize_below(n)];
+        qs.push(Q::Rank(Sym(c), rng.usize_below(n + 1)));
+        qs.push(Q::Select(Sym(c), 0));
+    }
+    let batch: Vec<(Q, A)> = qs
+        .into_iter()
+        .filter(|q| !matches!(q, Q::IterHash | Q::Space | Q::Len | Q::IsEmpty | Q::NLevels | Q::Sigma))
+        .map(|q| {
+            let a = crate::core::catch(|| x.answer(&q)).unwrap_or_else(A::Panic);
+            (q, a)
+        })
+        .filter(|(_, a)| !matches!(a, A::Panic(_)))
+        .collect();
+    if batch.is_empty() {
+        return 0;
+    }
+    let x = match crate::core::catch(|| spec.build()) {
+        Ok(y) => y,
+        Err(_) => return 0,
+    };
+    let go = AtomicBool::new(false);
+    let ready = AtomicUsize::new(0);
+    let ok = AtomicBool::new(true);
+    let nq = batch.len();
+    let worker = |j: usize| {
+        // first use (this is where a thread would be given its number / slot), then wait for the other worker
+        for (q0, e0) in batch.iter() {
+            if &x.answer(q0) != e0 {
+                ok.store(false, Ordering::SeqCst);
+            }
+        }
+        ready.fetch_add(1, Ordering::SeqCst);
+        while !go.load(Ordering::Acquire) {
+            std::thread::yield_now();
+        }
+        for round in 0..3 {
+            for k in 0..nq {
+                let (q, e) = &batch[(j * 5 + k + round) % nq];
+                let got = x.answer(q);
+                if &got != e {
+                    println!("C18-MISMATCH {} thread {j} query {q:?} answered {got:?}, a single thread gets {e:?}", x.kind());
+                    ok.store(false, Ordering::SeqCst);
+                }
+            }
+        }
+    };
+    std::thread::scope(|s| {
+        s.spawn(|| worker(0));
+        while ready.load(Ordering::SeqCst) < 1 {
+            std::thread::yield_now();
+        }
+        // 63 short-lived threads use the value once each, one after the other
+        for d in 0..63usize {
+            let (batch, x, ok) = (&batch, &x, &ok);
+            let h = s.spawn(move || {
+                // every kind of query once (whichever of them hands a thread its number / slot)
+                for k in 0..nq {
+                    let (q, e) = &batch[(d + k) % nq];
+                    if &x.answer(q) != e {
+                        ok.store(false, Ordering::SeqCst);
+                    }
+                }
+            });
+            let _ = h.join();
+        }
+        s.spawn(|| worker(1));
+        while ready.load(Ordering::SeqCst) < 2 {
+            std::thread::yield_now();
+        }
+        go.store(true, Ordering::Release);
+    });
+    println!("c18many scenario seed={seed} structure={} threads=65 queries={nq}", x.kind());
+    (!ok.load(Ordering::SeqCst)) as i32
+}
+
 fn trees_real(prop: &str, seed: u64) -> i32 {
     let rs = run_seed(seed, &format!("{prop}-miri"), 0);
     let mut case = trees::gen_case(prop, rs, Tier::Quick);
@@ -427,6 +530,7 @@ fn main() {
         "c18all" => c18all(seed),
         "c18big" => c18big(seed),
         "c18quad" => c18quad(seed),
+        "c18many" => c18many(seed),
         "c02" => trees_real("C02", seed),
         "c03" => trees_real("C03", seed),
         "c09" => c09(seed),
